@@ -45,7 +45,7 @@ def gen_plan(rng, tier):
     if mode == "live" or rng.random() < 0.7:
         for kk in ("r_start", "r_stop", "r_step", "files", "idl"):
             call.pop(kk, None)
-        if kind in ("hadrons", "hadrons_npr") and p.get("mode") == "irregular":
+        if kind in ("hadrons", "hadrons_npr", "hadrons_dist") and p.get("mode") == "irregular":
             call["idl"] = list(p["cfgs"])
         call["sel"] = "none"
     nimg = k.nwriters(p) if hasattr(k, "nwriters") else len(k.images(p))
@@ -248,7 +248,7 @@ def execute(plan, ctx):
     d = ctx.fresh_dir("data")
     comp = kind.component(p, call)
     budget = 1200 if ctx.tier == "quick" else 5000
-    if plan["kind"] in ("hadrons", "hadrons_npr"):
+    if plan["kind"] in ("hadrons", "hadrons_npr", "hadrons_dist"):
         return execute_hadrons(plan, ctx, kind, p, call, d, comp, budget)
     trip = kind.images(p)
     images = [t[0] for t in trip]
@@ -520,7 +520,7 @@ def execute_hadrons(plan, ctx, kind, p, call, d, comp, budget):
         ctx.step = oi
         rnd = random.Random(kernel.H("offs", op["sample_seed"]))
         c = used[op["file"] % len(used)]
-        path = os.path.join(d, "%s.%d.h5" % (p["stem"], c))
+        path = kind.file_for(p, d, c, op["file"])
         data = open(path, "rb").read()
         n = len(data)
         offs = sorted(set([0, 1, 7, 8, 9, 95, 96, 511, 512, n - 1, n - 2, n - 8, n - 9] + [rnd.randrange(n) for _ in range(min(op["nsample"], 32))]))
